@@ -742,13 +742,15 @@ type mapProv struct{ m seq.Mapping }
 func (p mapProv) GetMapping() seq.Mapping        { return p.m }
 func (p mapProv) GetRawMapping() *seq.RawMapping { return nil }
 
-func (c Case) ingestor(cl bulk.StorageClient) *bulk.Ingestor {
+func (c Case) ingestor(cl bulk.StorageClient) *bulk.Ingestor { return c.ingestorN(cl, 2) }
+
+func (c Case) ingestorN(cl bulk.StorageClient, inflight int) *bulk.Ingestor {
 	var m seq.Mapping
 	if c.Mapping == 1 {
 		m = testMapping()
 	}
 	return bulk.NewIngestor(bulk.IngestorConfig{
-		MaxInflightBulks:       2,
+		MaxInflightBulks:       inflight,
 		AllowedTimeDrift:       time.Duration(c.DriftMs) * time.Millisecond,
 		FutureAllowedTimeDrift: time.Duration(c.FutureMs) * time.Millisecond,
 		MappingProvider:        mapProv{m},
